@@ -15,7 +15,7 @@ Open Scope Z_scope.
 (* Values.  Every finite bool / int64 / float64 value is a dyadic rational m / 2^e, kept   *)
 (* normalised (e = 0 or m odd) so that numeric equality is structural equality.            *)
 (* ====================================================================================== *)
-Definition val := (Z * Z)%type.
+Notation val := (Z * Z)%type (only parsing).
 Definition vzero : val := (0, 0).
 Definition vone : val := (1, 0).
 Fixpoint vnorm_fuel (fuel : nat) (m e : Z) : val :=
@@ -135,7 +135,7 @@ End Eval.
 Definition tabulate {A} (f : Z -> A) (s : Z) (n : Z) : list A := map f (arange_from s (Z.to_nat n)).
 
 (* a record on one coordinate axis: [start, stop) carries value *)
-Definition rec1 := (Z * Z * val)%type.
+Notation rec1 := (Z * Z * (Z * Z))%type (only parsing).
 Definition covers (p : Z) (r : rec1) : bool := let '(s, e, _) := r in (s <=? p) && (p <? e).
 (* the value the records describe at base p: that of the record covering p, else the fill value *)
 Definition cover_at (fill : val) (recs : list rec1) (p : Z) : val :=
@@ -146,7 +146,7 @@ Definition any_at (recs : list rec1) (p : Z) : val := vbool (existsb (covers p) 
 Definition count_at (recs : list rec1) (p : Z) : val := (len (filter (covers p) recs), 0).
 
 (* records with a chromosome number *)
-Definition grec := (Z * Z * Z * val)%type.        (* chromosome index, start, stop, value *)
+Notation grec := (Z * Z * Z * (Z * Z))%type (only parsing).        (* chromosome index, start, stop, value *)
 Definition on_chrom (c : Z) (recs : list grec) : list rec1 :=
   map (fun '(_, s, e, v) => (s, e, v)) (filter (fun '(c', _, _, _) => c' =? c) recs).
 (* per chromosome dense arrays, genome order *)
@@ -201,7 +201,7 @@ Definition records_describe (fill : val) (sizes : list Z) (recs : list grec) (de
 (* MODEL                                                                                   *)
 (* ====================================================================================== *)
 (* run-length array: events e0 < e1 < ... < ek (e0 = 0), one value per run *)
-Definition rle := (list Z * list val)%type.
+Notation rle := (list Z * list (Z * Z))%type (only parsing).
 Fixpoint expand_from (prev : Z) (ev : list Z) (vs : list val) : list val :=
   match ev, vs with
   | e :: ev', v :: vs' => repeat v (Z.to_nat (e - prev)) ++ expand_from e ev' vs'
@@ -296,8 +296,10 @@ Definition from_bedgraph_gen (append_kind : kind -> kind) (k : kind) (recs : lis
           end in
         match mk_rle events values with Some r => Some (k1, r) | None => None end
   end.
-Definition from_bedgraph := from_bedgraph_gen append_kind_pinned.        (* the code at /repo HEAD *)
+Definition from_bedgraph_pinned := from_bedgraph_gen append_kind_pinned. (* the code at /repo HEAD *)
 Definition from_bedgraph_fixed := from_bedgraph_gen append_kind_fixed.   (* with notes/C09.fix-1.diff *)
+(* ---- the variant in force (one-line switch): from_bedgraph_pinned now; from_bedgraph_fixed once fix-1 is in /repo ---- *)
+Definition from_bedgraph := from_bedgraph_pinned.
 
 (* ---------- GenomicRunLengthArray.from_intervals ---------- *)
 Fixpoint interleave2 {A} (a b : list A) : list A :=
@@ -315,8 +317,24 @@ Definition from_intervals_events (starts ends : list Z) (size : Z) : list Z * bo
   let has_postfix := match ends with [] => true | _ => negb (last ends 0 =? size) end in
   ((if has_prefix then [0] else []) ++ interleave2 starts ends ++ (if has_postfix then [size] else []),
    has_prefix, has_postfix).
+(* RunLengthArray.__init__(events, values, do_clean=True) ignores do_clean (pinned): touching intervals
+   leave an empty run and the constructor's assertion fails.  The repaired variant removes empty runs
+   first (RunLengthArray.remove_empty_intervals: drop events[i], values[i] where events[i] = events[i+1]). *)
+Fixpoint remove_empty (ev : list Z) (vs : list (Z * Z)) : list Z * list (Z * Z) :=
+  match ev with
+  | e1 :: ((e2 :: _) as ev') =>
+      match vs with
+      | v :: vs' => let '(ev2, vs2) := remove_empty ev' vs' in
+                    if e1 =? e2 then (ev2, vs2) else (e1 :: ev2, v :: vs2)
+      | [] => (ev, vs)
+      end
+  | _ => (ev, vs)
+  end.
+Definition clean_pinned (ev : list Z) (vs : list (Z * Z)) : list Z * list (Z * Z) := (ev, vs).
+Definition clean_fixed := remove_empty.
 (* scalar value (isinstance(values, Number)) *)
-Definition from_intervals_scalar (starts ends : list Z) (size : Z) (k : kind) (value default : val) : option (kind * rle) :=
+Definition from_intervals_scalar_gen (clean : list Z -> list (Z * Z) -> list Z * list (Z * Z))
+  (starts ends : list Z) (size : Z) (k : kind) (value default : val) : option (kind * rle) :=
   (* assert np.all(ends > starts); assert np.all(starts[1:] >= ends[:-1]) *)
   if negb (all_true (map2 Z.ltb starts ends) && all_true (map2 Z.leb (removelast ends) (tl starts))) then None
   else
@@ -324,12 +342,14 @@ Definition from_intervals_scalar (starts ends : list Z) (size : Z) (k : kind) (v
     let values := alternate (Z.to_nat (len events / 2 + 1)) (cast_to k default) value in
     let values := if has_prefix then values else tl values in
     let values := firstn (Z.to_nat (len events - 1)) values in
+    let '(events, values) := clean events values in
     match mk_rle events values with Some r => Some (k, r) | None => None end.
 (* array of per-interval values.  Pinned code: interleave(np.broadcast(...), values) raises
    AttributeError for every input; the repaired variant interleaves default and values. *)
 Definition from_intervals_array_pinned (starts ends : list Z) (size : Z) (k : kind) (values : list val) (default : val)
   : option (kind * rle) := None.
-Definition from_intervals_array_fixed (starts ends : list Z) (size : Z) (k : kind) (values : list val) (default : val)
+Definition from_intervals_array_fixed (clean : list Z -> list (Z * Z) -> list Z * list (Z * Z))
+  (starts ends : list Z) (size : Z) (k : kind) (values : list val) (default : val)
   : option (kind * rle) :=
   if negb (all_true (map2 Z.ltb starts ends) && all_true (map2 Z.leb (removelast ends) (tl starts))) then None
   else
@@ -338,8 +358,13 @@ Definition from_intervals_array_fixed (starts ends : list Z) (size : Z) (k : kin
     let vs := if has_postfix then vs ++ [cast_to k default] else vs in
     let vs := if has_prefix then vs else tl vs in
     let vs := firstn (Z.to_nat (len events - 1)) vs in
+    let '(events, vs) := clean events vs in
     match mk_rle events vs with Some r => Some (k, r) | None => None end.
-Definition from_intervals_array := from_intervals_array_pinned.          (* the code at /repo HEAD *)
+(* ---- the variant in force (one-line switches): the code at /repo HEAD.  Once notes/C09.fix-2.diff is in /repo use
+        [from_intervals_array_fixed clean_in_force]; once notes/C09.fix-3.diff is in /repo set clean_in_force := clean_fixed. ---- *)
+Definition clean_in_force := clean_pinned.
+Definition from_intervals_scalar := from_intervals_scalar_gen clean_in_force.
+Definition from_intervals_array := from_intervals_array_pinned.
 
 (* ---------- get_boolean_mask: argsort on start, merge_intervals(distance 0), drop empty, from_intervals ---------- *)
 Fixpoint insert_sorted (r : rec1) (l : list rec1) : list rec1 :=
@@ -372,7 +397,7 @@ Definition pileup (recs : list rec1) (size : Z) : option (kind * rle) :=
   match mk_rle ev (map (count_at recs) (removelast ev)) with Some r => Some (KI, r) | None => None end.
 
 (* ---------- run lists (end, value), start implied by the previous end ---------- *)
-Definition run := (Z * val)%type.
+Notation run := (Z * (Z * Z))%type (only parsing).
 Definition runs_of (r : rle) : list run := combine (tl (fst r)) (snd r).
 Definition of_runs (rs : list run) : rle := (0 :: map fst rs, map snd rs).
 Fixpoint expand_runs (pos : Z) (rs : list run) : list val :=
